@@ -771,6 +771,198 @@ theorem onSimpleDiPath_two_iff (G : MG α) (hA : G.Acyclic) (S T : List α) (v :
     obtain ⟨p, hp, hl, hv⟩ := (onWalk_iff G s t v).2 h
     exact ⟨s, hs, t, ht, p, hp, hp.nodup_of_acyclic hA, hl, hv⟩
 
+/-! ## 16. insertion-order independence of the remaining operations -/
+
+theorem equiv_congr_markovPillow (G H : MG α) (h : G.equiv H = true) (S P Q : List α)
+    (hP : G.markovPillow S = .ok P) (hQ : H.markovPillow S = .ok Q) (v : α) : v ∈ P ↔ v ∈ Q := by
+  rw [equiv_iff] at h
+  rw [markovPillow_spec G S P hP, markovPillow_spec H S Q hQ]
+  simp only [h.2.1]
+
+theorem equiv_congr_markovBlanket (G H : MG α) (h : G.equiv H = true) (S P Q : List α)
+    (hP : G.markovBlanket S = .ok P) (hQ : H.markovBlanket S = .ok Q) (v : α) : v ∈ P ↔ v ∈ Q := by
+  rw [equiv_iff] at h
+  rw [markovBlanket_spec G S P hP, markovBlanket_spec H S Q hQ]
+  simp only [h.2.1]
+
+/-- the undirected part of the moralised graph, self-loops included: `moralize` never marries a node to itself -/
+theorem biEdge_moralize_iff (G : MG α) (hG : G.WF) (u v : α) :
+    G.moralize.BiEdge u v ↔ G.BiEdge u v ∨ (u ≠ v ∧ ∃ c, G.DiEdge u c ∧ G.DiEdge v c) := by
+  by_cases huv : u = v
+  · subst huv
+    unfold moralize
+    rw [biEdge_foldl_addBi]
+    constructor
+    · rintro (h | h | h)
+      · exact Or.inl h
+      · exact absurd rfl (moralLinks_ne G hG.di_nodup u u h)
+      · exact absurd rfl (moralLinks_ne G hG.di_nodup u u h)
+    · rintro (h | ⟨h, _⟩)
+      · exact Or.inl h
+      · exact absurd rfl h
+  · rw [biEdge_moralize G hG u v huv]; simp [huv]
+
+theorem equiv_congr_moralize (G H : MG α) (hG : G.WF) (hH : H.WF) (h : G.equiv H = true) :
+    G.moralize.equiv H.moralize = true := by
+  rw [equiv_iff] at h ⊢
+  obtain ⟨hn, hd, hb⟩ := h
+  exact ⟨fun v => by simp [mem_nodes_moralize, hG, hH, hn], fun u v => by simp [diEdge_moralize, hd],
+    fun u v => by simp only [biEdge_moralize_iff, hG, hH, hd, hb]⟩
+
+theorem equiv_congr_disorient (G H : MG α) (hG : G.WF) (hH : H.WF) (h : G.equiv H = true) :
+    G.disorient.equiv H.disorient = true := by
+  rw [equiv_iff] at h ⊢
+  obtain ⟨hn, hd, hb⟩ := h
+  exact ⟨fun v => by simp [mem_nodes_disorient, hG, hH, hn],
+    fun u v => by simp [no_diEdge_disorient], fun u v => by simp only [edge_disorient, hd, hb]⟩
+
+section intervene_congr
+variable {β : Type} [DecidableEq β]
+
+/-- edges of the intervened graph between arbitrary labels (no injectivity needed) -/
+theorem diEdge_interveneRaw_iff (G : MG α) (f : α → β) (X : List α) (a b : β) :
+    (G.interveneRaw f X).DiEdge a b ↔ ∃ u v, G.DiEdge u v ∧ v ∉ X ∧ a = f u ∧ b = f v := by
+  unfold interveneRaw; rw [diEdge_fromEdges]
+  simp only [DiEdge, List.mem_map, List.mem_filter, decide_eq_true_eq, Prod.mk.injEq]
+  constructor
+  · rintro ⟨⟨u, v⟩, ⟨he, hx⟩, rfl, rfl⟩; exact ⟨u, v, he, hx, rfl, rfl⟩
+  · rintro ⟨u, v, he, hx, rfl, rfl⟩; exact ⟨(u, v), ⟨he, hx⟩, rfl, rfl⟩
+
+theorem biEdge_interveneRaw_iff (G : MG α) (f : α → β) (X : List α) (a b : β) :
+    (G.interveneRaw f X).BiEdge a b ↔ ∃ u v, G.BiEdge u v ∧ u ∉ X ∧ v ∉ X ∧ a = f u ∧ b = f v := by
+  unfold interveneRaw; rw [biEdge_fromEdges]
+  simp only [BiEdge, List.mem_map, List.mem_filter, decide_eq_true_eq, Prod.mk.injEq]
+  constructor
+  · rintro (⟨⟨u, v⟩, ⟨he, hx⟩, rfl, rfl⟩ | ⟨⟨u, v⟩, ⟨he, hx⟩, rfl, rfl⟩)
+    · exact ⟨u, v, Or.inl he, hx.1, hx.2, rfl, rfl⟩
+    · exact ⟨v, u, Or.inr he, hx.2, hx.1, rfl, rfl⟩
+  · rintro ⟨u, v, he | he, hu, hv, rfl, rfl⟩
+    · exact Or.inl ⟨(u, v), ⟨he, hu, hv⟩, rfl, rfl⟩
+    · exact Or.inr ⟨(v, u), ⟨he, hv, hu⟩, rfl, rfl⟩
+
+theorem equiv_congr_interveneRaw (G H : MG α) (hG : G.WF) (hH : H.WF) (h : G.equiv H = true)
+    (f : α → β) (X : List α) : (G.interveneRaw f X).equiv (H.interveneRaw f X) = true := by
+  rw [equiv_iff] at h ⊢
+  obtain ⟨hn, hd, hb⟩ := h
+  exact ⟨fun v => by simp only [mem_nodes_intervene, hG, hH, hn],
+    fun u v => by simp only [diEdge_interveneRaw_iff, hd], fun u v => by simp only [biEdge_interveneRaw_iff, hb]⟩
+
+/-- `intervene` succeeds or refuses independently of the insertion order, and the results are equal graphs -/
+theorem equiv_congr_intervene (G H : MG α) (hG : G.WF) (hH : H.WF) (h : G.equiv H = true)
+    (f : α → β) (X : List α) :
+    (∀ e, G.intervene f X = .error e ↔ H.intervene f X = .error e) ∧
+    ∀ G' H', G.intervene f X = .ok G' → H.intervene f X = .ok H' → G'.equiv H' = true := by
+  have hraw := equiv_congr_interveneRaw G H hG hH h f X
+  rw [equiv_iff] at h
+  have hemp : G.nodes.isEmpty = H.nodes.isEmpty := by
+    cases hg : G.nodes with
+    | nil =>
+      cases hh : H.nodes with
+      | nil => rfl
+      | cons b _ => exact absurd ((h.1 b).2 (by simp [hh])) (by simp [hg])
+    | cons a _ =>
+      cases hh : H.nodes with
+      | nil => exact absurd ((h.1 a).1 (by simp [hg])) (by simp [hh])
+      | cons b _ => rfl
+  unfold intervene
+  rw [hemp]
+  by_cases hc : (X.isEmpty && !H.nodes.isEmpty) = true
+  · simp [hc]
+  · simp only [hc, Bool.false_eq_true, if_false, Except.ok.injEq]
+    refine ⟨fun e => by simp, ?_⟩
+    rintro G' H' rfl rfl
+    exact hraw
+
+end intervene_congr
+
+private theorem diPath_congr (G H : MG α) (hd : ∀ u v, G.DiEdge u v ↔ H.DiEdge u v) (k : Nat) (S T : List α)
+    (v : α) : G.OnSimpleDiPath k S T v ↔ H.OnSimpleDiPath k S T v := by
+  have key : ∀ (G H : MG α), (∀ u v, G.DiEdge u v → H.DiEdge u v) →
+      ∀ a p b, G.DiPath a p b → H.DiPath a p b := by
+    intro G H hd a p b hp
+    induction hp with
+    | single a => exact .single a
+    | cons hab _ ih => exact .cons (hd _ _ hab) ih
+  constructor
+  · rintro ⟨s, hs, t, ht, p, hp, h⟩
+    exact ⟨s, hs, t, ht, p, key G H (fun u v => (hd u v).1) _ _ _ hp, h⟩
+  · rintro ⟨s, hs, t, ht, p, hp, h⟩
+    exact ⟨s, hs, t, ht, p, key H G (fun u v => (hd u v).2) _ _ _ hp, h⟩
+
+theorem equiv_congr_nodesInDirectedPaths (G H : MG α) (hG : G.WF) (hH : H.WF) (h : G.equiv H = true)
+    (S T R R' : List α) (hR : G.nodesInDirectedPaths S T = .ok R) (hR' : H.nodesInDirectedPaths S T = .ok R')
+    (v : α) : v ∈ R ↔ v ∈ R' := by
+  rw [equiv_iff] at h
+  have hA := acyclic_congr G H h.2.1
+  have h1 := nodesInDirectedPaths_spec G hG S T R hR v
+  have h2 := nodesInDirectedPaths_spec H hH S T R' hR' v
+  by_cases hAG : G.Acyclic
+  · rw [h1.1 hAG, h2.1 (hA.1 hAG)]; exact diPath_congr G H h.2.1 2 S T v
+  · rw [h1.2 hAG, h2.2 (fun hh => hAG (hA.2 hh))]; exact diPath_congr G H h.2.1 1 S T v
+
+/-! ## 17. totality: the set-valued queries return exactly when their arguments are nodes -/
+
+theorem markovPillow_ok_iff (G : MG α) (S : List α) :
+    (∃ P, G.markovPillow S = .ok P) ↔ ∀ s ∈ S, s ∈ G.nodes := by
+  unfold markovPillow checkSources
+  by_cases h : ∀ s ∈ S, s ∈ G.nodes
+  · have : S.all (· ∈ G.nodes) = true := by simpa using h
+    simpa [this, bind, Except.bind, pure, Except.pure] using h
+  · have : ¬ (S.all (· ∈ G.nodes) = true) := by simpa using h
+    simp [this, h, bind, Except.bind]
+
+theorem markovBlanket_ok_iff (G : MG α) (S : List α) :
+    (∃ P, G.markovBlanket S = .ok P) ↔ ∀ s ∈ S, s ∈ G.nodes := by
+  unfold markovBlanket checkSources
+  by_cases h : ∀ s ∈ S, s ∈ G.nodes
+  · have : S.all (· ∈ G.nodes) = true := by simpa using h
+    simpa [this, bind, Except.bind, pure, Except.pure] using h
+  · have : ¬ (S.all (· ∈ G.nodes) = true) := by simpa using h
+    simp [this, h, bind, Except.bind]
+
+/-- `get_district(v)` returns exactly when `v` is a node (otherwise `KeyError`), and what it returns is the
+class of `v` under bidirected connectivity -/
+theorem getDistrict_ok_iff (G : MG α) (hG : G.WF) (v : α) :
+    (∃ d, G.getDistrict v = .ok d) ↔ v ∈ G.nodes := by
+  unfold getDistrict
+  constructor
+  · rintro ⟨d, hd⟩
+    cases hf : G.districts.find? (fun d => decide (v ∈ d)) with
+    | none => rw [hf] at hd; cases hd
+    | some d' =>
+      have h1 := List.mem_of_find?_eq_some hf
+      have h2 := List.find?_some hf
+      exact (districts_cover G hG v).2 ⟨d', h1, by simpa using h2⟩
+  · intro hv
+    obtain ⟨d, hd, hvd⟩ := (districts_cover G hG v).1 hv
+    cases hf : G.districts.find? (fun d => decide (v ∈ d)) with
+    | none =>
+      have := List.find?_eq_none.1 hf d hd
+      simp [hvd] at this
+    | some d' => exact ⟨d', rfl⟩
+
+theorem getDistrict_spec (G : MG α) (hG : G.WF) (v : α) (d : List α) (h : G.getDistrict v = .ok d) (u : α) :
+    u ∈ d ↔ G.SameDistrict v u := by
+  unfold getDistrict at h
+  cases hf : G.districts.find? (fun d => decide (v ∈ d)) with
+  | none => rw [hf] at h; cases h
+  | some d' =>
+    rw [hf] at h
+    cases h
+    have h1 := List.mem_of_find?_eq_some hf
+    have h2 := List.find?_some hf
+    exact districts_spec G hG d h1 v (by simpa using h2) u
+
+theorem getDistrict_error (G : MG α) (hG : G.WF) (v : α) (hv : v ∉ G.nodes) :
+    G.getDistrict v = .error (.internal "KeyError") := by
+  cases h : G.getDistrict v with
+  | ok d => exact absurd ((getDistrict_ok_iff G hG v).1 ⟨d, h⟩) hv
+  | error e =>
+    unfold getDistrict at h
+    split at h
+    · cases h
+    · cases h; rfl
+
 /-! ## non-vacuity: a 5-node graph with an isolated node (4) and a node touched only by a
 bidirected edge (3) satisfies `WF`, and the operations return what the theorems say -/
 
@@ -783,5 +975,24 @@ example : exampleGraph.ancestorsInclusive [2] = .ok [2, 1, 0] := by decide
 example : exampleGraph.districts = [[4], [0, 2, 3], [1]] := by decide
 example : exampleGraph.markovBlanket [1] = .ok [0, 2] := by decide
 example : (fromEdges ([] : List Nat) [(0, 2), (1, 2)] []).moralize.bi = [(0, 1)] := by decide
+
+/-- a graph with the directed cycle 1 → 2 → 1 -/
+def cyclicExample : MG Nat := fromEdges [] [(0, 1), (1, 2), (2, 1), (2, 3)] []
+
+example : exampleGraph.topologicalSort = .ok [4, 0, 3, 1, 2] := by decide
+example : exampleGraph.Acyclic := (isAcyclic_iff _ (wf_fromEdges _ _ _)).1 (by decide)
+example : ¬ cyclicExample.Acyclic := fun h =>
+  absurd ((isAcyclic_iff _ (wf_fromEdges _ _ _)).2 h) (by decide)
+example : cyclicExample.topologicalSort = .error (.internal "NetworkXUnfeasible") := by decide
+example : exampleGraph.pre [1] none = .ok [4, 0, 3] := by decide
+/-- acyclic branch: `2 ∈ S ∩ T` is returned only because it ends the path 0 → 1 → 2 -/
+example : exampleGraph.nodesInDirectedPaths [0, 2] [2] = .ok [1, 0, 2] := by decide
+example : exampleGraph.nodesInDirectedPaths [2] [2] = .ok [] := by decide
+/-- cyclic branch: `3 ∈ S ∩ T` counts as a trivial path -/
+example : cyclicExample.nodesInDirectedPaths [3] [3] = .ok [3] := by decide
+example : cyclicExample.nodesInDirectedPaths [0, 3] [3] = .ok [0, 1, 2, 3] := by decide
+example : cyclicExample.nodesInDirectedPaths [0] [7] = .error (.internal "NodeNotFound") := by decide
+example : exampleGraph.getDistrict 3 = .ok [0, 2, 3] := by decide
+example : exampleGraph.getDistrict 7 = .error (.internal "KeyError") := by decide
 
 end Y0.MG
